@@ -20,7 +20,7 @@ META = {
     ),
     "anchors": ["abelian_core.calc_reshape_args", "abelian_core.AbelianArray.reshape"],
     "floors": {
-        "quick": {"evaluations": 60000, "distinct_nontrivial": 400, "tables": {"array/reshape": 3000, "array/roundtrip": 1500, "routine/forward": 40000, "routine/backward": 30000, "routine/with-fused-axes": 50000, "routine/plans-that-unfuse-and-expand": 2000, "array/expand-or-unfuse-target": 1500, "feature/nonzero-charge-singleton": 200, "feature/fused-axis": 200, "kind/fermionic": 500}},
+        "quick": {"evaluations": 60000, "distinct_nontrivial": 400, "tables": {"array/reshape": 3000, "array/roundtrip": 1500, "routine/forward": 40000, "routine/backward": 30000, "routine/with-fused-axes": 50000, "routine/long-forward": 50000, "routine/long-plans-with>=3-groups": 5000, "routine/plans-that-unfuse-and-expand": 2000, "array/expand-or-unfuse-target": 1500, "feature/nonzero-charge-singleton": 200, "feature/fused-axis": 200, "kind/fermionic": 500}},
         "thorough": {"evaluations": 300000, "distinct_nontrivial": 8000, "tables": {"array/reshape": 100000, "routine/forward": 40000}},
     },
     "exhaustive": {"quick": False, "thorough": False},
@@ -150,6 +150,61 @@ def routine_unreachable(ctx, ac, rng):
         assert got == tgt, f"plan {plan} leads to {got}"
     except AssertionError as e:
         ctx.violation("routine-wrong-plan", f"calc_reshape_args({shape}, {tgt}): {e}", {"shape": shape, "target": tgt, "plan": repr(plan)})
+
+
+def routine_long(ctx, ac, rng):
+    """Shapes with 6-9 axes (beyond the exhaustive box): random merge/drop targets, forward and
+    back, plan simulated exactly."""
+    n = rng.randint(6, 9)
+    shape = tuple(rng.choice([1, 1, 2, 2, 3]) for _ in range(n))
+    # random composition into runs
+    runs, cur = [], [shape[0]]
+    for d in shape[1:]:
+        if rng.random() < 0.45:
+            cur.append(d)
+        else:
+            runs.append(cur)
+            cur = [d]
+    runs.append(cur)
+    tgt = []
+    for r in runs:
+        p_ = int(np.prod(r))
+        if p_ == 1 and rng.random() < 0.5:
+            continue
+        tgt.append(p_)
+    tgt = tuple(tgt)
+    if tgt == ():
+        return
+    ctx.evaluated()
+    ctx.count("routine", "long-forward")
+    none = (None,) * n
+    try:
+        plan = ac.calc_reshape_args(shape, tgt, none)
+        got, subs = simulate(shape, none, plan)
+        assert got == tgt, f"plan {plan} leads to {got}"
+    except AssertionError as e:
+        ctx.violation("routine-wrong-plan", f"calc_reshape_args({shape}, {tgt}): {e}", {"shape": shape, "target": tgt})
+        return
+    except Exception as e:
+        ctx.violation(f"routine-raises-{type(e).__name__}", f"calc_reshape_args({shape}, {tgt}) raised {e!r} for a reachable target", {"shape": shape, "target": tgt})
+        return
+    if sum(1 for g in plan[1] for _ in g) >= 3:
+        ctx.count("routine", "long-plans-with>=3-groups")
+    # back: only when the parse is unambiguous (no fused axis with a size-one sub-index or size
+    # equal to its first sub-size) - otherwise this is the known ambiguity
+    if any(ss is not None and (1 in ss) for ss in subs):
+        ctx.count("routine", "long-back-skipped-ambiguous")
+        return
+    ctx.evaluated()
+    ctx.count("routine", "long-backward")
+    try:
+        plan2 = ac.calc_reshape_args(tgt, shape, subs)
+        got2, _ = simulate(tgt, subs, plan2)
+        assert got2 == shape, f"plan {plan2} leads to {got2}"
+    except AssertionError as e:
+        ctx.violation("routine-wrong-plan-back", f"calc_reshape_args({tgt}, {shape}, {subs}): {e}", {"shape": tgt, "target": shape, "subsizes": repr(subs)})
+    except Exception as e:
+        ctx.violation(f"routine-back-raises-{type(e).__name__}", f"calc_reshape_args({tgt}, {shape}, {subs}) raised {e!r}", {"shape": tgt, "target": shape, "subsizes": repr(subs)})
 
 
 def routine_with_fused(ctx, ac, rng):
@@ -467,4 +522,6 @@ def run(ctx):
         ctx.run_case(routine_unreachable, ctx, ac, rng)
     for _, rng in ctx.cases("routine-fused", ctx.budget(150000, 2000000)):
         ctx.run_case(routine_with_fused, ctx, ac, rng)
+    for _, rng in ctx.cases("routine-long", ctx.budget(150000, 2000000)):
+        ctx.run_case(routine_long, ctx, ac, rng)
     hooks.uninstall()
